@@ -202,6 +202,8 @@ impl<'a> ChainStylist<'a> {
                             cmt
                         }
                     }
+                    // As after a detached comment: the next comment is set off by a space.
+                    space_after = true;
                 }
                 ChainItem::Linebreak => {
                     has_break = true;
